@@ -63,6 +63,14 @@ bool prop(Tape &t, Report &R) {
     s.labels.insert("nets:high-fanout(>100 pins)");
     R.classify("nets:high-fanout(>100 pins)");
   }
+  // net weights are not validated and detailed placement optimises the plain (unweighted)
+  // half-perimeter: nets of weight zero (or below) are nets like any other here
+  if (t.flip(1, 5)) {
+    bool any = false;
+    for (auto &n : s.nets)
+      if (t.flip(1, 3)) n.weight = t.flip(1, 4) ? -1.0f : 0.0f, any = true;
+    if (any) R.classify("nets:zero-or-negative-weight");
+  }
   if (!direct) {
     R.classify("layer:a-top-level");
     TopLevelOutcome out = runTopLevel(s, params, ob, excl);
